@@ -274,6 +274,8 @@ def call_custom_op(E, lib, name, args, kwargs):
         if isinstance(a, STensor):
             dev = a.device.type
             break
+    # recorded for callers' contracts (which arguments reached the kernel, in which dtypes)
+    E.ps.setdefault("custom_op_log", []).append((f"{lib}::{name}", tuple(getattr(a, "dtype", None) for a in args)))
     keymap = {"cpu": "CPU", "cuda": "CUDA", "mps": "MPS"}
     for key in (keymap.get(dev), "default"):
         if (lib, name, key) in E.oplib:
